@@ -233,8 +233,12 @@ func famCrash(c *mon.Ctx) {
 					continue
 				}
 				r := refEvents[n]
-				if l.Event.Kind != r.Kind || l.Event.FileNum != r.FileNum || l.Event.Off != r.Off || l.Event.N != r.N {
+				// ffldb's Close closes its read-only files in map order: which file a
+				// blk-close names is not deterministic (and does not matter)
+				bothClose := l.Event.Kind == "blk-close" && r.Kind == "blk-close"
+				if !bothClose && (l.Event.Kind != r.Kind || l.Event.FileNum != r.FileNum || l.Event.Off != r.Off || l.Event.N != r.N) {
 					same = false
+					k.Count("crash.inconclusive.diverged.ref="+r.Kind+",child="+l.Event.Kind, 1)
 					break
 				}
 				n++
@@ -374,7 +378,20 @@ func verifyRecovered(k *mon.Case, rep caseReporter, ref *faultRun, states []*ref
 		db, oerr = database.Open("ffldb", dbdir, wire.MainNet)
 	}()
 	if oerr != nil {
-		k.Violation(tag+"reopen-failed:"+codeOf(oerr), "database.Open after the crash failed: "+oerr.Error()+"\n"+ctxDetail, nil)
+		// what had happened to the block files before the (first) crash
+		diag := ""
+		for _, l := range lines {
+			if l.Type == 'K' {
+				break
+			}
+			if l.Type == 'T' {
+				diag = ":after-powerloss-dropped-unsynced-bytes"
+			}
+			if l.Type == 'E' && l.Event.Kind == "blk-delete" && diag == "" {
+				diag = ":after-block-file-deletion"
+			}
+		}
+		k.Violation(tag+"reopen-failed:"+codeOf(oerr)+diag, "database.Open after the crash failed: "+oerr.Error()+"\n"+ctxDetail, nil)
 		return
 	}
 	closeDB := true
